@@ -253,6 +253,23 @@ func main() {
 
 			c.SampleEvery(3_000_017, func() any { return map[string]any{"family": family, "in": enum.Hex(s)} })
 		})
+
+		// Every single-bit flip, deletion and doubling of every byte of the
+		// canonical names of every shape.
+		sm := sh()
+		for _, base := range gen.ArpaCanonicalNames() {
+			gen.ByteMutations(base, func(m string) {
+				if !sm.Mine() {
+					return
+				}
+
+				c.InFlight(m)
+				c.Family("byte-mutations")
+				if one(c, m) && !gen.InArpaTokenCore(m, fullLen, smallLen) {
+					c.NontrivialKey(m)
+				}
+			})
+		}
 	})
 }
 
